@@ -11,7 +11,7 @@
    what unbounded channels with one stage running after the other deliver; [compose_states] the final
    state of every stage (for lifecycle detection: the final lifecycle table). *)
 From Coq Require Import List NArith Bool Arith Permutation.
-From AdltV Require Import Pipe.Kahn Pipe.KahnProofs Pipe.Loss Pipe.LossProofs Pipe.Shared Pipe.SharedProofs.
+From AdltV Require Import Pipe.Kahn Pipe.KahnProofs Pipe.Loss Pipe.LossProofs Pipe.Shared Pipe.SharedProofs Pipe.Consumer Pipe.ConsumerProofs.
 Import ListNotations.
 
 Section Statements.
@@ -261,6 +261,42 @@ Example C13_shared_nonvacuous :
   map snd (seen (srun look 30 0 [] (sinit [] evs))) = [true; true; true; true].
 Proof. cbv zeta. split; [|split; vm_compute; reflexivity]. cbn. repeat split; repeat constructor. Qed.
 
+(* ---------------------------------------------------------------------------------------------------------------
+   The consumer end as remote.rs wires it (process_file_context, Pipe/Consumer.v): ticks at arbitrary moments; a tick takes
+   k >= 0 messages out of the final channel and then copies the current view of the lifecycle table to the client.  The
+   lifecycle stage publishes its final table AFTER its last message. *)
+Section ConsumerStatements.
+  Context {msg tbl : Type}.
+
+  (* as coded (the table is looked at in every tick): for every interleaving of the writer's events and the ticks, any tick
+     after the writer's last event leaves the client with the final table -- "the same final lifecycle table for every
+     pacing of producer and consumer" at the client *)
+  Theorem C13_consumer_ends_with_final_table t0 (evs : list (@ev msg tbl)) (s s' : @cst msg tbl) :
+    csteps true (cinit t0 evs) s -> c_todo s = [] -> cstep true s s' ->
+    c_view s' = final_of t0 evs /\ c_todo s' = [].
+  Proof. exact (consumer_ends_with_final_table t0 evs s s'). Qed.
+
+  (* ... and it stays so, whatever happens afterwards *)
+  Theorem C13_consumer_final_table_stays t0 (evs : list (@ev msg tbl)) (s s' : @cst msg tbl) :
+    csteps true s s' -> c_todo s = [] -> c_cur s = final_of t0 evs -> c_view s = final_of t0 evs ->
+    c_view s' = final_of t0 evs.
+  Proof. exact (view_stays t0 evs s s'). Qed.
+
+  (* refuted variant (the behaviour class of seeded change C13-5): a consumer that looks at the table only in ticks that
+     received messages has a schedule -- the tick that takes the last message runs before the writer's last publication --
+     after which the client holds a stale table for ever, however often the consumer ticks *)
+  Theorem C13_guarded_consumer_can_stay_stale t0 t1 (m : msg) :
+    t0 <> t1 ->
+    exists s : @cst msg tbl,
+      csteps false (cinit t0 [ESend m; EPub t1]) s /\ c_todo s = [] /\ c_chan s = [] /\ c_got s = [m] /\
+      forall s', csteps false s s' -> c_view s' = t0 /\ c_view s' <> final_of t0 [ESend m; EPub t1].
+  Proof. exact (guarded_consumer_can_stay_stale t0 t1 m). Qed.
+
+  (* the interpreter used by the correspondence check computes executions of [cstep] *)
+  Theorem C13_consumer_exec_sound always sched (s : @cst msg tbl) : csteps always s (crun always sched s).
+  Proof. exact (crun_sound always sched s). Qed.
+End ConsumerStatements.
+
 (* instances: the miniature sort is a permutation stage, the filter and the pass-through are congruent *)
 Lemma C13_inst_sort w : perm_stage (st_sort w).
 Proof. exact (st_sort_perm_stage w). Qed.
@@ -335,3 +371,7 @@ Print Assumptions C13_reader_is_kahn_stage.
 Print Assumptions C13_unpublished_send_schedule_dependent.
 Print Assumptions C13_shared_exec_sound.
 Print Assumptions C13_shared_nonvacuous.
+Print Assumptions C13_consumer_ends_with_final_table.
+Print Assumptions C13_consumer_final_table_stays.
+Print Assumptions C13_guarded_consumer_can_stay_stale.
+Print Assumptions C13_consumer_exec_sound.
